@@ -28,7 +28,7 @@ def entry_agreement(F, rep):
     # gecko blob: u32 little-endian actual_size + bytes on both sides
     wb = F.body(peppifmt.WRITE)
     wt = tir.pretty(wb["tir"]["value"])
-    w_ok = "let buf = gecko_codes.actual_size.to_le_bytes().to_vec(); buf.write_all(&gecko_codes.bytes)?" in wt
+    w_ok = gecko_writer_ok(F, wb)
     rb = F.body("io::peppi::de::read_peppi_gecko_codes")
     rt = tir.pretty(rb["tir"]["value"])
     r_ok = "r.read_exact(&mut actual_size)?" in rt and "r.read_to_end(&mut bytes)?" in rt and "actual_size: u32::from_le_bytes(actual_size)" in rt.replace("core::num::<impl u32>::from_le_bytes", "u32::from_le_bytes").replace("std::primitive::u32::from_le_bytes", "u32::from_le_bytes") and "bytes: bytes" in rt
@@ -45,9 +45,8 @@ def entry_agreement(F, rep):
             if x.get("k") == "MethodCall" and x["method"] == "read_to_end":
                 filled = L.local_name(strip(x["args"][0]))
             if x.get("k") == "Call" and declared(x) == dec:
-                a = strip(x["args"][0])
-                if a.get("k") == "Index" and (strip(a["index"]).get("path") or "").endswith("ops::RangeFull"):
-                    whole = L.local_name(a["base"]) == filled and filled is not None
+                a = strip(x["args"][0])     # strip peels `&mut`, `&x[..]` and `.as_slice()`: the whole buffer
+                whole = L.local_name(a) == filled and filled is not None
         rep.ob("entry.raw-decoder", whole, fn, "decoder", "%s must pass the whole entry to %s" % (fn, dec))
     # optionality
     peppifmt.optionality_rule(F, rep)
@@ -71,13 +70,95 @@ def entry_agreement(F, rep):
                    "metadata is an Option written unconditionally (None renders as JSON null) but the reader rejects null")
 
 
+def gecko_writer_ok(F, wb):
+    """gecko_codes.raw = actual_size as 4 little-endian bytes, then the blob, appended under that name"""
+    root = wb["tir"]["value"]
+    helpers = peppifmt.append_helpers(F)
+    for n in tir.walk(root):
+        if n.get("k") == "Let" and n["pat"].get("k") == "Bind" and n.get("init") is not None:
+            i = strip(n["init"])
+            if i.get("k") == "MethodCall" and i["method"] in ("to_vec", "into", "to_owned"):
+                le = strip(i["recv"])
+                if le.get("k") == "MethodCall" and le["method"] == "to_le_bytes" and (tir.place(le["recv"]) or "").endswith(".actual_size"):
+                    base = tir.place(le["recv"]).rsplit(".", 1)[0]
+                    bid = n["pat"]["id"]
+                    ext = [x for x in tir.walk(root) if x.get("k") == "MethodCall" and x["method"] in ("write_all", "extend_from_slice", "extend") and strip(x["recv"]).get("id") == bid]
+                    muts = [x for x in tir.walk(root) if x.get("k") == "MethodCall" and strip(x["recv"]).get("id") == bid and (x["recv"].get("aty") or "").startswith("&mut")]
+                    app = [x for x in tir.walk(root) if x.get("k") == "Call" and (declared(x) or "") in helpers and any(strip(a).get("id") == bid for a in x["args"])
+                           and any(strip(a).get("k") == "Lit" and strip(a).get("v") == "gecko_codes.raw" for a in x["args"])]
+                    if len(ext) == 1 and len(muts) == 1 and tir.place(ext[0]["args"][0]) == base + ".bytes" and len(app) == 1:
+                        return True
+    return False
+
+
+def is_opts_compression(e, params):
+    """Option<&Opts> -> the Option<Compression> it carries: map_or(None, |o| o.compression) / and_then(|o| o.compression)"""
+    e = strip(e)
+    if e.get("k") != "MethodCall" or e["method"] not in ("map_or", "and_then"):
+        return False
+    r = strip(e["recv"])
+    if not (r.get("k") == "Path" and r.get("res") == "local" and "Opts" in (r.get("ty") or "") and r.get("id") in [p.get("id") for p in params]):
+        return False
+    if e["method"] == "map_or":
+        d = strip(e["args"][0])
+        if not (d.get("k") == "Path" and (d.get("path") or "").endswith("None")):
+            return False
+    cl = strip(e["args"][-1])
+    if cl.get("k") != "Closure" or len(cl["params"]) != 1:
+        return False
+    b = strip(cl["body"])
+    return b.get("k") == "Field" and b["name"] == "compression" and strip(b["base"]).get("id") == cl["params"][0].get("id")
+
+
+def export_args_ok(wb):
+    """frames exported as game.frames.into_struct_array(game.start.slippi.version, &port_occupancy(&game.start))"""
+    root = wb["tir"]["value"]
+    env = tir.LetEnv(root)
+    g = wb["tir"]["params"][1].get("name")
+    for c in tir.walk(root):
+        if c.get("k") == "MethodCall" and c["method"] == "into_struct_array" and tir.place(c["recv"]) == g + ".frames" and len(c["args"]) == 2:
+            v = env.place(c["args"][0], peel=False)
+            p = env.resolve(c["args"][1])
+            return v == g + ".start.slippi.version" and p.get("k") == "Call" and declared(p) == "game::port_occupancy" and tir.place(p["args"][0]) == g + ".start"
+    return False
+
+
+def import_args_ok(F, arms):
+    """frames.arrow is decoded with the version of the start block stored by the start.raw arm of the same loop"""
+    fa, sa = arms.get("frames.arrow"), arms.get("start.raw")
+    if fa is None or sa is None:
+        return False
+    slot = None
+    for x in tir.walk(sa["body"]):
+        if x.get("k") == "Assign":
+            slot = strip(x["l"]).get("id")
+    env = tir.LetEnv(fa["body"])
+    for c in tir.walk(fa["body"]):
+        if c.get("k") == "Call" and (declared(c) or "") == "io::peppi::de::read_arrow_frames" and len(c["args"]) == 2:
+            v = env.resolve(c["args"][1], peel=True)
+            # start.slippi.version with start := <slot>.as_ref()..?   or   <slot>.as_ref().map(|s| s.slippi.version)..?
+            if v.get("k") == "Field" and v["name"] == "version" and strip(v["base"]).get("k") == "Field" and strip(v["base"])["name"] == "slippi":
+                st = env.resolve(strip(v["base"])["base"], peel=True)
+                return slot is not None and st.get("id") == slot
+            if v.get("k") == "MethodCall" and v["method"] == "map":
+                cl = strip(v["args"][0])
+                st = env.resolve(v["recv"], peel=True)
+                if cl.get("k") == "Closure" and len(cl["params"]) == 1:
+                    b = strip(cl["body"])
+                    okb = b.get("k") == "Field" and b["name"] == "version" and strip(b["base"]).get("k") == "Field" and strip(b["base"])["name"] == "slippi" and strip(strip(b["base"])["base"]).get("id") == cl["params"][0].get("id")
+                    return okb and slot is not None and st.get("id") == slot
+    return False
+
+
 def compression_rule(F, rep):
     wb = F.body(peppifmt.WRITE)
     ok = False
     for n in tir.walk(wb["tir"]["value"]):
         if n.get("k") == "Struct" and (n.get("path") or "").endswith("WriteOptions"):
-            f = {x["name"]: tir.pretty(x["e"]) for x in n["fields"]}
-            ok = f.get("compression") == "opts.map_or(std::prelude::v1::None, |o| o.compression)"
+            env = tir.LetEnv(wb["tir"]["value"])
+            for x in n["fields"]:
+                if x["name"] == "compression":
+                    ok = is_opts_compression(env.resolve(x["e"]), wb["tir"]["params"])
     rep.ob("compression.passed", ok, peppifmt.WRITE, "WriteOptions", "Opts.compression must reach WriteOptions.compression unmodified")
     G = reach.Graph(F)
     R = G.reachable([peppifmt.READ])
@@ -97,11 +178,10 @@ def compression_rule(F, rep):
     rep.ob("arrow.single-batch", "multiple batches" in "".join(str(x.get("v")) for x in tir.walk(F.body("io::peppi::de::read_arrow_frames")["tir"]["value"]) if x.get("k") == "Lit" and x.get("lit") == "str") or "Some(_) => return" in rt,
            "io::peppi::de::read_arrow_frames", "batches", "exactly one record batch is written and expected")
     wt = tir.pretty(wb["tir"]["value"])
-    rep.ob("arrow.version", "game.frames.into_struct_array(game.start.slippi.version, &ports)" in wt and "let ports = game::port_occupancy(&game.start)" in wt, peppifmt.WRITE, "export-args",
+    rep.ob("arrow.version", export_args_ok(wb), peppifmt.WRITE, "export-args",
            "frames must be exported with the game's own version and port occupancy")
     arms, m, loop = peppifmt.reader_arms(F)
-    fa = tir.pretty(arms["frames.arrow"]["body"])
-    rep.ob("arrow.import-version", "start.as_ref().map(|s| s.slippi.version)" in fa and "io::peppi::de::read_arrow_frames(file, version)?" in fa, peppifmt.READ, "import-args",
+    rep.ob("arrow.import-version", import_args_ok(F, arms), peppifmt.READ, "import-args",
            "frames must be imported with the version of the start block read from the same archive")
 
 
